@@ -619,10 +619,10 @@ def p_upccgsd(ctx):
     _family_part(ctx, "UpCCGSD", "upccgsd_k34", keep=lambda c: c["k"] >= 3, frac=0.65)
 
 
-@part("uccgd", quick=32, thorough=800)
+@part("uccgd", quick=48, thorough=1000)
 def p_uccgd(ctx):
-    _family_part(ctx, "UCCGD", "uccgd", keep=lambda c: c["map"] != "scbk", frac=0.6)
-    _family_part(ctx, "UCCGD", "uccgd_scbk", keep=lambda c: c["map"] == "scbk", frac=0.4)   # encoding that merges words of different excitations
+    _family_part(ctx, "UCCGD", "uccgd", keep=lambda c: c["map"] != "scbk", frac=0.45)
+    _family_part(ctx, "UCCGD", "uccgd_scbk", keep=lambda c: c["map"] == "scbk", frac=0.55)   # encoding that merges words of different excitations
 
 
 @part("hea", quick=40, thorough=1200)
